@@ -37,6 +37,12 @@ type ctl struct {
 	// the next Get fails once with a transient engine error
 	getFault bool
 
+	// engine transactions begun ahead of the request that will use them (`prebegin <id>`; on TiKV the start timestamp
+	// is taken by BeginBatchWrite): a request run with `txn=<id>` commits its (first) batch through the one begun
+	// under <id> - a client that was slow between BeginBatchWrite and Commit
+	pre    map[string]storage.BatchWrite
+	useTxn string
+
 	// iterator fault (scanner retry path): the NEXT iterator created fails its iterFault-th Next call once
 	iterFault       int
 	iterFaultsFired int
@@ -439,7 +445,16 @@ func (b *batchWrap) Commit(ctx context.Context) error {
 		fault = b.w.c.popFault()
 	}
 	run := func() error {
-		inner := b.w.inner.BeginBatchWrite()
+		var inner storage.BatchWrite
+		b.w.c.mu.Lock()
+		if id := b.w.c.useTxn; id != "" && b.w.c.pre[id] != nil {
+			inner = b.w.c.pre[id]
+			delete(b.w.c.pre, id)
+		}
+		b.w.c.mu.Unlock()
+		if inner == nil {
+			inner = b.w.inner.BeginBatchWrite()
+		}
 		for _, op := range b.ops {
 			op(inner)
 		}
